@@ -108,6 +108,10 @@ func checkC03Document(p *Prog, r *Report) {
 
 	// --- scenario evaluation
 	in := &interp{p: p, f: f, maxPaths: 400000}
+	if deep {
+		in.maxVisit = 3 // two included resources per path
+		in.maxPaths = 2000000
+	}
 	in.mapUpdateHook = func(st *istate, mu *ssa.MapUpdate, m, k, v *aval) {
 		st.notes = append(st.notes, "mu|"+m.String()+"|"+k.String()+"|"+v.String())
 	}
